@@ -20,7 +20,7 @@ THOROUGH = [
     ("merge(max_concurrent) sync", dict(Ops={"merge_mc"}, MCs={1, 2, 3}, Tabs={"plain", "short", "error", "never"}, Flavours={"sync"})),
     ("merge(max_concurrent) queue order", dict(Ops={"merge_mc"}, MCs={1, 2}, Tabs={"plain", "short"}, Flavours={"cold"}, RG=False)),
     ("merge(max_concurrent) hot", dict(Ops={"merge_mc"}, MCs={1, 2}, Tabs={"pair", "short"}, Flavours={"hot"})),
-    ("long table, 4 inners", dict(Ops={"merge_all", "merge_mc"}, MCs={2}, Tabs={"long"}, Flavours={"cold", "sync"}, MaxOuter=4,
+    ("long table, 4 inners", dict(Ops={"merge_all", "merge_mc"}, MCs={2}, Tabs={"long"}, Flavours={"cold", "sync"}, MaxOuter=3,
                                  OTimes={1, 2, 4}, OTermTimes={2, 4, 9})),
     ("mapped + every mapper table", dict(Ops={"flat_map", "flat_map_indexed", "concat_map"}, Tabs={"error"},
                                          Flavours={"cold", "sync"}, Faults=True, FAll=True, MaxOuter=2)),
